@@ -69,11 +69,15 @@ class Rec:
 
     @contextlib.contextmanager
     def sut(self, what: str):
-        """Run code under test: any exception it raises is a violation."""
+        """Run code under test: any exception it raises is a violation; so is a call that never returns."""
         try:
-            yield
+            with watchdog():
+                yield
         except (Violation, InvalidCase, Excluded):
             raise
+        except SutHang:
+            raise Violation(f"hang:{what}", f"the call did not return within {SUT_LIMIT:.0f} s "
+                            "(such calls take milliseconds to a few seconds on this harness)")
         except BaseException as e:  # noqa: BLE001
             if isinstance(e, (KeyboardInterrupt, MemoryError)):
                 raise
@@ -83,6 +87,41 @@ class Rec:
                 f"crash:{what}:{type(e).__name__}@{_innermost_zorg_frame(e)}",
                 f"{type(e).__name__}: {str(e)[:300]}",
             ) from e
+
+
+class SutHang(BaseException):
+    """A single call into the code under test ran into the watchdog (an endless loop, not a slow machine:
+    the limit is hundreds of times what such a call needs)."""
+
+
+SUT_LIMIT = float(os.environ.get("VZ_SUT_LIMIT", "180") or 0)
+_HANGS = [0]  # hangs seen by this process: later calls get a short leash (the run is lost anyway)
+
+
+def _on_alarm(signum, frame):
+    _HANGS[0] += 1
+    raise SutHang()
+
+
+@contextlib.contextmanager
+def watchdog(limit: float = None):
+    """Bound one direct call into zorg.  Nested use keeps the outer alarm."""
+    import signal
+    import threading
+
+    limit = SUT_LIMIT if limit is None else limit
+    if _HANGS[0] and limit > 15:
+        limit = 15.0
+    if limit <= 0 or threading.current_thread() is not threading.main_thread():
+        yield
+        return
+    old_handler = signal.signal(signal.SIGALRM, _on_alarm)
+    old_timer = signal.setitimer(signal.ITIMER_REAL, limit)
+    try:
+        yield
+    finally:
+        signal.setitimer(signal.ITIMER_REAL, old_timer[0])
+        signal.signal(signal.SIGALRM, old_handler)
 
 
 def _innermost_zorg_frame(e: BaseException) -> str:
@@ -193,6 +232,11 @@ def run_one(part: Part, case: Any, res: ShardResult, open_keys: set,
         res.invalid += 1
         if len(res.invalid_samples) < 3:
             res.invalid_samples.append({"why": str(e)[:500], "case": case})
+        return
+    except SutHang:
+        # (raised by env.zorg: an in-process CLI command that is not inside a rec.sut() scope)
+        res.failures.append({"sig": "hang:zorg-command", "case": case, "part": part.name,
+                             "detail": f"a zorg command did not return within {SUT_LIMIT:.0f} s"})
         return
     except BaseException as e:  # noqa: BLE001
         if type(e).__name__ in ("StopTest", "UnsatisfiedAssumption", "Frozen"):
